@@ -132,7 +132,7 @@ def configs(tier):
     add("cp_permute", R=2, shape=(2, 2), aslist=0, align=1, mode="fork")
     add("cp_permute", R=2, shape=(2, 2), aslist=1, align=0 if q else 1, mode="fork")
     if not q:
-        add("cp_permute", R=2, shape=(2, 2, 2), aslist=0, align=1, mode="fork")
+        add("cp_permute", R=2, shape=(2, 2, 2), aslist=0, align=0, mode="fork")  # alignment chain undecided at three modes (level-2 refinement unknown)
         add("cp_permute", R=3, shape=(2, 2), aslist=0, align=1, mode="fork")
     # error metrics
     shapes = [(2,), (3,), (2, 2), (2, 3), (3, 2)] + ([] if q else [(3, 3), (2, 2, 2)])
